@@ -553,4 +553,16 @@ def snippet(d):
                 f"hy.eval(hy.read_many({S.hy_def(toks, c['fn'])!r}), globals())\nhy_f = f\n{S.py_def(toks)}\n"
                 "def show(t):\n    try: print(t())\n    except Exception as e: print(type(e).__name__, e)\n"
                 f"show(lambda: hy.eval(hy.read({S.hy_call(call, 'hy_f')!r}), globals()))\nshow(lambda: {S.py_call(call)})\n")
+    if c["mode"] == "body":
+        return ("import hy, inspect\ndef log(i, v): print('effect', i); return v\n"
+                f"hy.eval(hy.read_many({body_hy(tuple(c['body']), c['fn'])!r}), globals())\nhy_f = f\nexec({body_py(tuple(c['body']), c['fn'])!r})\n"
+                "print('Hy __doc__:', hy_f.__doc__, '| Python __doc__:', f.__doc__)\n"
+                "# drive both (call / send(None) / next) and compare return value, yields and effects\n")
+    if c["mode"] == "illegal":
+        toks = tuple(tuple(t) for t in c["tokens"])
+        return ("import hy\n"
+                f"try:\n    hy.eval(hy.read_many({'(defn f ' + S.hy_lambda_list(toks, logged=False) + ' 1)'!r}), {{}}); print('Hy accepts')\n"
+                "except Exception as e: print('Hy:', type(e).__name__, e)\n"
+                f"try:\n    compile({'def f(' + S.py_param_list(toks, logged=False) + '): return 1'!r}, 'x', 'exec'); print('Python accepts')\n"
+                "except SyntaxError as e: print('Python: SyntaxError', e)\n")
     return f"import hy\n# {d['detail']}\n"
